@@ -198,10 +198,13 @@ func parseContractFile(path string) (*ContractFile, error) {
 				c := &Clause{Kind: word, Label: label, Text: rest, Line: ln, File: path}
 				cur.Ensures = append(cur.Ensures, c)
 				lastClause = c
-			case "invariant":
+			case "invariant", "step":
 				c := &Clause{Kind: word, Label: "", Text: rest, Line: ln, File: path}
 				fmt.Sscanf(label, "%d", &c.Loop)
 				c.Label = fmt.Sprintf("loop%d_inv%d", c.Loop, len(cur.Invariants))
+				if word == "step" {
+					c.Label = fmt.Sprintf("loop%d_step%d", c.Loop, len(cur.Invariants))
+				}
 				cur.Invariants = append(cur.Invariants, c)
 				lastClause = c
 			case "invvars":
@@ -418,10 +421,14 @@ func rewriteSpec(s string) (string, error) {
 	}
 	out := b.String()
 	out = oldRe.ReplaceAllString(out, "${1}verif_old(")
+	out = freshRe.ReplaceAllString(out, "${1}verif_fresh(")
+	out = prevRe.ReplaceAllString(out, "${1}verif_prev(")
 	return out, nil
 }
 
 var oldRe = regexp.MustCompile(`(^|[^\w.])old\(`)
+var freshRe = regexp.MustCompile(`(^|[^\w.])fresh\(`)
+var prevRe = regexp.MustCompile(`(^|[^\w.])prev\(`)
 
 func matchParen(s string, i int) int {
 	d := 0
